@@ -1,6 +1,7 @@
 //! C10 driver: subcommand `tcase`.
 //!
-//! case: {"id", "ts": T, "opt": bool, "mappings": {name: target}|null, "enum": bool, "unit": bool, "scratch": dir}
+//! case: {"id", "ts": T, "opt": bool, "mappings": {name: target}|null, "enum": bool, "unit": bool,
+//!        "keys": [field key, parameter key, channel key, second enum literal] | null, "scratch": dir}
 //!   T = ["prim", "string"|"number"|"boolean"|"void"] | ["arr", T] | ["map", T, T] | ["set", T]
 //!     | ["tuple", T...] | ["opt", T] | ["res", T] | ["custom", name]
 //!
@@ -81,23 +82,28 @@ fn rust_text(t: &TypeStructure) -> String {
 }
 
 fn param(name: &str, t: &TypeStructure, opt: bool) -> ParameterInfo {
+    param_as(name, None, t, opt)
+}
+
+/// `key`: the serialised name (as a serde rename) when it differs from the Rust name
+fn param_as(name: &str, key: Option<&str>, t: &TypeStructure, opt: bool) -> ParameterInfo {
     ParameterInfo {
         name: name.to_string(),
         rust_type: rust_text(t),
         is_optional: opt,
         type_structure: t.clone(),
-        serde_rename: None,
+        serde_rename: key.map(|k| k.to_string()),
     }
 }
 
-fn channel(cmd: &str, t: &TypeStructure) -> ChannelInfo {
+fn channel(cmd: &str, key: Option<&str>, t: &TypeStructure) -> ChannelInfo {
     ChannelInfo {
         parameter_name: "ch".to_string(),
         message_type: rust_text(t),
         command_name: cmd.to_string(),
         file_path: "src/lib.rs".to_string(),
         line_number: 1,
-        serde_rename: None,
+        serde_rename: key.map(|k| k.to_string()),
         message_type_structure: t.clone(),
     }
 }
@@ -117,13 +123,17 @@ fn command(name: &str, params: Vec<ParameterInfo>, channels: Vec<ChannelInfo>) -
 }
 
 fn field(name: &str, t: &TypeStructure, opt: bool) -> FieldInfo {
+    field_as(name, None, t, opt)
+}
+
+fn field_as(name: &str, key: Option<&str>, t: &TypeStructure, opt: bool) -> FieldInfo {
     FieldInfo {
         name: name.to_string(),
         rust_type: rust_text(t),
         is_optional: opt,
         is_public: true,
         validator_attributes: None,
-        serde_rename: None,
+        serde_rename: key.map(|k| k.to_string()),
         type_structure: t.clone(),
     }
 }
@@ -163,12 +173,17 @@ pub fn tcase(case: &Value) -> Value {
     let chan_t = if to_json(&reparsed) == to_json(&t) { t.clone() } else { TypeStructure::Primitive("string".to_string()) };
     let chan_ts = analyzer.get_type_resolver().borrow_mut().parse_type_structure(&rust_text(&chan_t));
 
+    // optional serialised names (serde renames): [field key, parameter key, channel key, second enum literal]
+    let keys: Vec<Option<String>> = (0..4)
+        .map(|i| case.get("keys").and_then(|k| k.get(i)).and_then(|v| v.as_str()).map(|s| s.to_string()))
+        .collect();
+    let (fk, pk, ck, lit) = (keys[0].as_deref(), keys[1].as_deref(), keys[2].as_deref(), keys[3].as_deref());
     let mut structs: HashMap<String, StructInfo> = HashMap::new();
     structs.insert(
         "S".to_string(),
         StructInfo {
             name: "S".to_string(),
-            fields: vec![field("f", &t, opt)],
+            fields: vec![field_as("f", fk, &t, opt)],
             file_path: "src/lib.rs".to_string(),
             is_enum: false,
             serde_rename_all: None,
@@ -181,7 +196,7 @@ pub fn tcase(case: &Value) -> Value {
             "K".to_string(),
             StructInfo {
                 name: "K".to_string(),
-                fields: vec![field("A", &unit, false), field("B", &unit, false)],
+                fields: vec![field("A", &unit, false), field_as("B", lit, &unit, false)],
                 file_path: "src/lib.rs".to_string(),
                 is_enum: true,
                 serde_rename_all: None,
@@ -204,9 +219,9 @@ pub fn tcase(case: &Value) -> Value {
         uparams.push(param("z", &TypeStructure::Custom("Z".to_string()), false));
     }
     let commands = vec![
-        command("c", vec![param("p", &t, opt)], vec![]),
-        command("d", vec![param("p", &t, opt)], vec![channel("d", &chan_t)]),
-        command("e", vec![], vec![channel("e", &chan_t)]),
+        command("c", vec![param_as("p", pk, &t, opt)], vec![]),
+        command("d", vec![param_as("p", pk, &t, opt)], vec![channel("d", ck, &chan_t)]),
+        command("e", vec![], vec![channel("e", ck, &chan_t)]),
         command("u", uparams, vec![]),
     ];
 
